@@ -16,12 +16,12 @@ RULE = ("Greenlet parent chains of 1..5 greenlets (each the child of the previou
         "unstarted/dead: no frames; other thread: an error and no frames; extract_outermost agrees. greenback under Trio: "
         "sync/async alternation depth 0..5, extraction from outside the task and from inside it; the harness-file frames must "
         "be, in order, exactly the generated call chain, every frame executing greenback.await_ is hidden and so is every "
-        "other frame between two frames of the chain (the bridging internals); the same under asyncio, where coroutines are "
+        "other frame between two frames of the chain (the bridging internals), and the portal's own generator / trampoline frames (_greenback_shim, _greenback_shim_sync, trampoline) are hidden wherever they sit in either view; the synchronous levels may make their await_ from greenlets spawned 1-2 levels below the portal's child greenlet; the same under asyncio, where coroutines are "
         "resumed through the error path (each level first awaits a failing future). CPython 3.12 "
         "(the only interpreter here with greenlet/greenback/trio). Non-trivial: chain of >= 2 greenlets inspected from a "
         "descendant, or alternation depth >= 2; distinct = distinct IR.")
 ASSUMPTIONS = [
-    "greenback-internal frames other than greenback.await_ are not constrained (the repository's own test shows some of them)",
+    "greenback-internal frames other than greenback.await_ and the portal's generator / trampoline are not constrained (the repository's own test shows some of them)",
 ]
 
 
@@ -78,7 +78,7 @@ def shard(arg):
                 if v:
                     out.violation(v[0]["desc"], case, "3.12", obs=v[0].get("obs"))
             for spawn in (1, 2):
-                # the synchronous levels run their await_ bridge in greenlets nested below the portal's (inside view only)
+                # the synchronous levels run their await_ bridge in greenlets nested below the portal's (both views: the task is parked in an await_ made by such a greenlet)
                 case = {"greenback_depth": depth, "spawn": spawn}
                 v = check(ws, {"op": "green.greenback", "depth": depth, "spawn": spawn}, out, case, depth >= 1,
                           ["greenback", "greenback.bridge_from_nested_greenlet.%d" % spawn])
